@@ -61,6 +61,7 @@ def run(ctx):
     from .C06 import rebuild_rules
     rebuild_rules(ctx, "R04.7", only_types=True)
     _ignorefile_keys(ctx)
+    _transparent_wrappers(ctx)
     ctx.rule("R04.1", "every export sink of a scan_* function is unreachable once the edges establishing `file is S_local` / `_vis <= min_vis` are removed")
     ctx.rule("R04.2", "member export in define_struct_type/define_method (and free functions in scan_function) is behind the file, deleted/static, visibility and involves_*/ignore* gates; force_publish only for the two documented public cases")
     ctx.rule("R04.3", "involves_unpublished/involves_protected/involves_rvalue_reference/in_ignoreinvolved recurse through const, reference, pointer, typedef and function (return + parameters) wrappers")
@@ -349,10 +350,20 @@ def _siblings(ctx):
             for stn in arm[0][1]:
                 for c in walk(stn):
                     if c.get("k") == "call" and c.get("f") == pname and c.get("a"):
+                        srcs = [c["a"][0]]
+                        # a local holding the wrapped type: read through to what it was initialised with
                         for x in walk(c["a"][0]):
-                            if x.get("k") == "mem":
-                                got.add(x["n"].split("::")[-1])
-                                break
+                            if x.get("k") == "ref" and x.get("dk") == "local":
+                                for st2 in fn.walk():
+                                    if st2.get("k") == "decls":
+                                        for d2 in st2["d"]:
+                                            if d2.get("d") == x.get("d") and d2.get("init") is not None:
+                                                srcs.append(d2["init"])
+                        for src in srcs:
+                            for x in walk(src):
+                                if x.get("k") == "mem":
+                                    got.add(x["n"].split("::")[-1])
+                                    break
             ok = fields <= got
             ctx.ob("R04.3", "%s|%s" % (pname.split("::")[-1], st), ok, fn.loc(arm[0][1][0]) if arm[0][1] else fn.loc(),
                    "case %s recurses into %s (required %s)" % (st, sorted(got), sorted(fields)))
@@ -557,4 +568,39 @@ def _ignorefile_keys(ctx):
             ctx.ob("R04.8", "%s|in_ignorefile|%s" % (f.name, show(arg).replace(" ", "")[:60]) if not ok else "%s|in_ignorefile" % f.name, ok, f.loc(c),
                    "in_ignorefile(%s): %s" % (show(arg)[:70], "the spelling as referenced" if ok else "NOT the declaration's _filename_as_referenced"))
     ctx.floor("R04.8", "in_ignorefile call sites", n, 8)
+
+
+
+
+def _transparent_wrappers(ctx):
+    """R04.9: `its signature involves no private/protected/unpublished type` is decided by recursive predicates.  A
+    const, pointer, reference or typedef around a hidden type hides nothing: those arms must be pure recursion into the
+    wrapped type (a public typedef of a private nested class must still count as involving it)."""
+    from .C02 import _canon_arm
+    db = ctx.db
+    ctx.rule("R04.9", "in TypeManager::involves_protected and involves_unpublished the const / pointer / reference / typedef arms are exactly `return <same predicate>(<wrapped type>)`")
+    en = db.enums.get("CPPDeclaration::SubType")
+    names = {c["v"]: c["n"].split("::")[-1] for c in en["consts"]}
+    n = 0
+    for fname in ("TypeManager::involves_protected", "TypeManager::involves_unpublished"):
+        for f in db.fns(fname):
+            sw = [x for x in f.walk() if x.get("k") == "switch" and any(c.get("k") == "call" and callee_short(c) == "get_subtype" for c in walk(x["c"]))]
+            if len(sw) != 1:
+                ctx.broken("%s: subtype switch not found" % fname)
+            arms = {}
+            for labs, stmts in switch_arms(sw[0]):
+                for v in labs:
+                    arms[names.get(v, v)] = stmts
+            for lab, sub, fld in (("ST_const", "const", "_wrapped_around"), ("ST_pointer", "pointer", "_pointing_at"),
+                                  ("ST_reference", "reference", "_pointing_at"), ("ST_typedef", "typedef", "_type")):
+                if lab not in arms:
+                    ctx.ob("R04.9", "%s|%s" % (fname.split("::")[-1], lab), False, f.loc(), "no arm for %s: the wrapper would fall to the default and hide what it wraps" % lab)
+                    continue
+                n += 1
+                got = _canon_arm(db, f, arms[lab], lab)
+                # the recursive call may carry further arguments (min_vis): compare callee, accessor and field
+                ok = got[:3] == ("self", sub, fld)
+                ctx.ob("R04.9", "%s|%s" % (fname.split("::")[-1], lab), ok, f.loc(arms[lab][0]),
+                       "a %s is looked through: %s" % (sub, got))
+    ctx.floor("R04.9", "wrapper arms", n, 8)
 
